@@ -240,7 +240,7 @@ int main(int argc, char** argv) {
                     TR.emit("{\"e\":\"Stuck\",\"rc\":\"%s\",\"blocked\":[%s]}", rc_name(rc).c_str(), b.str().c_str()); ++st->stuck; S.join_all(); continue; }
                 S.join_all(); TR.emit("{\"e\":\"Quiesce\"}"); if (chunk > 1) S0.teardown();
             }
-        });
+        }, &c0);
     }
     fclose(out);
     printf("{\"paths\":%ld,\"steps\":%ld,\"stuck\":%ld,\"crashed\":%ld,\"sleeps\":%ld,\"wakes\":%ld,\"buffered\":%ld,\"workers\":%ld,\"wall\":%.2f}\n", st->paths, st->steps, st->stuck, crashed, st->sleeps, st->wakes, st->buffered, st->workers, tm.s());
